@@ -14,9 +14,11 @@ open ErdosVerif.Model ErdosVerif.Model.Sim
 key (a Python dict cannot have one) satisfies the invariant. -/
 theorem initial_state_ok (s0 : SimS) (vs : Array (List Vec))
     (hp : s0.pools = vs.map (fun ws => (⟨ws.map Worker.ofVec, []⟩ : Pool)))
-    (hnd : ∀ ws ∈ vs.toList, ∀ v ∈ ws, (AList.keys v).Nodup) (hl : s0.log = #[]) (hn : s0.now = 0) :
+    (hnd : ∀ ws ∈ vs.toList, ∀ v ∈ ws, (AList.keys v).Nodup) (hl : s0.log = #[]) (hn : s0.now = 0)
+    (hg : s0.graphs = #[]) (ha : ∀ g ∈ s0.allGraphs.toList, g.Fresh)
+    (hj : ∀ j ∈ s0.jobs.toList, j.template.Fresh) :
     Inv s0 := by
-  apply inv_initial s0 _ hl hn
+  apply inv_initial s0 _ hl hn hg ha hj
   intro p hpm
   rw [hp] at hpm
   simp only [Array.toList_map, List.mem_map] at hpm
